@@ -13,19 +13,21 @@ from zope.interface.interface import InterfaceClass
 from zope.interface.adapter import AdapterRegistry, VerifyingAdapterRegistry
 
 from .regmodel import lookup_winners
+from .common import wmod, newworld
 
 FLAVOURS = {'adapter': AdapterRegistry, 'verifying': VerifyingAdapterRegistry}
 SENT = object()
 
 
 def mk(n, *b):
-    return InterfaceClass(n, b or (Interface,), {'__module__': 'w'})
+    return InterfaceClass(n, b or (Interface,), {'__module__': wmod()})
 
 
 class H:
     """The (immutable) hierarchy; built once per worker task."""
 
     def __init__(self):
+        newworld()
         self.R0 = R0 = mk('R0')
         self.R1 = R1 = mk('R1')
         self.R2 = R2 = mk('R2', R0, R1)
